@@ -110,3 +110,118 @@ Proof.
   zc; cbn [is_lt];
   repeat match goal with |- context [if ?c then _ else _] => destruct c eqn:? end; try reflexivity; lia.
 Qed.
+
+(* ---- packaged statements: strict weak order + tied elements have equal keys ---- *)
+Definition TiedKeys {A K} (less : A -> A -> bool) (key : A -> K) : Prop :=
+  forall a b, less a b = false -> less b a = false -> key a = key b.
+
+Ltac pack G S := split; [exact (via_key_strict_weak _ _ G _ S) | exact (via_key_tied_keys _ _ G _ S)].
+
+Lemma stableRef_order : StrictWeak stableRef_less /\ TiedKeys stableRef_less stableRef_key.
+Proof. pack good_zz stableRef_spec. Qed.
+Lemma chunkOrder_order : StrictWeak chunkOrder_less /\ TiedKeys chunkOrder_less chunkOrder_key.
+Proof. pack good_zz chunkOrder_spec. Qed.
+Lemma crossChunkImport_order : StrictWeak crossChunkImport_less /\ TiedKeys crossChunkImport_less (fun x => x).
+Proof. pack good_Z crossChunkImport_spec. Qed.
+Lemma ccItem_order : StrictWeak ccItem_less /\ TiedKeys ccItem_less cci_alias.
+Proof. pack good_str ccItem_spec. Qed.
+Lemma symCount_order : StrictWeak symCount_less /\ TiedKeys symCount_less symCount_key.
+Proof. pack good_symCount symCount_spec. Qed.
+Lemma slotCount_order : StrictWeak slotCount_less /\ TiedKeys slotCount_less slotCount_key.
+Proof. pack good_dz slotCount_spec. Qed.
+Lemma charCount_order : StrictWeak charCount_less /\ TiedKeys charCount_less charCount_key.
+Proof. pack good_dz charCount_spec. Qed.
+Lemma scopeMember_order : StrictWeak scopeMember_less /\ TiedKeys scopeMember_less scopeMember_key.
+Proof. pack good_zz scopeMember_spec. Qed.
+Lemma metafile_order : StrictWeak metafile_less /\ TiedKeys metafile_less metafile_key.
+Proof. pack good_metafile metafile_spec. Qed.
+Lemma expansionKeys_order : StrictWeak expansionKeys_less /\ TiedKeys expansionKeys_less ek_key.
+Proof. pack good_ek expansionKeys_spec. Qed.
+Lemma msg_order : StrictWeak msg_less /\ TiedKeys msg_less msg_key.
+Proof. pack good_msg msg_spec. Qed.
+
+(* ---- totality on the domains the linker/renamer actually sort ---- *)
+
+(* refs whose StableSourceIndex comes from an injective table (StableSourceIndices
+   is the position in the DFS order, a permutation of the reachable files) *)
+Lemma stableRef_total_on_domain (stable_of : Z -> Z) l :
+  (forall x y, stable_of x = stable_of y -> x = y) ->
+  (forall a, In a l -> sr_stable a = stable_of (r_src (sr_ref a))) ->
+  TotalOn stableRef_less l.
+Proof.
+  intros Hinj Hdom. apply (via_key_total_on _ _ good_zz _ stableRef_spec).
+  intros [sa [ra ia]] [sb [rb ib]] Ia Ib Hk. unfold stableRef_key in Hk; cbn in Hk.
+  inversion Hk; subst. pose proof (Hdom _ Ia) as Ha. pose proof (Hdom _ Ib) as Hb. cbn in Ha, Hb.
+  assert (ra = rb) by (apply Hinj; congruence). now subst.
+Qed.
+
+(* one chunkOrder per file, tieBreaker = stable index of the file, distance a function of the file *)
+Lemma chunkOrder_total_on_domain (stable_of dist_of : Z -> Z) l :
+  (forall x y, stable_of x = stable_of y -> x = y) ->
+  (forall a, In a l -> co_tie a = stable_of (co_src a) /\ co_dist a = dist_of (co_src a)) ->
+  TotalOn chunkOrder_less l.
+Proof.
+  intros Hinj Hdom. apply (via_key_total_on _ _ good_zz _ chunkOrder_spec).
+  intros [sa da ta] [sb db tb] Ia Ib Hk. unfold chunkOrder_key in Hk; cbn in Hk.
+  inversion Hk; subst. destruct (Hdom _ Ia) as [Ha _]. destruct (Hdom _ Ib) as [Hb _]. cbn in Ha, Hb.
+  assert (sa = sb) by (apply Hinj; congruence). now subst.
+Qed.
+
+(* one StableSymbolCount per ref *)
+Lemma symCount_total_on_domain (stable_of : Z -> Z) l :
+  (forall x y, stable_of x = stable_of y -> x = y) ->
+  (forall a, In a l -> sc_stable a = stable_of (r_src (sc_ref a))) ->
+  TotalOn symCount_less l.
+Proof.
+  intros Hinj Hdom. apply (via_key_total_on _ _ good_symCount _ symCount_spec).
+  intros [sa [ra ia] ca] [sb [rb ib] cb] Ia Ib Hk. unfold symCount_key in Hk; cbn in Hk.
+  inversion Hk; subst. pose proof (Hdom _ Ia) as Ha. pose proof (Hdom _ Ib) as Hb. cbn in Ha, Hb.
+  assert (ra = rb) by (apply Hinj; congruence). now subst.
+Qed.
+
+(* keys that are the whole element: total without any domain condition *)
+Lemma slotCount_total l : TotalOn slotCount_less l.
+Proof.
+  apply (via_key_total_on _ _ good_dz _ slotCount_spec). intros [a b] [c d] _ _ H. now inversion H.
+Qed.
+Lemma charCount_total l : TotalOn charCount_less l.
+Proof.
+  apply (via_key_total_on _ _ good_dz _ charCount_spec). intros [a b] [c d] _ _ H. now inversion H.
+Qed.
+Lemma scopeMember_total l : TotalOn scopeMember_less l.
+Proof.
+  apply (via_key_total_on _ _ good_zz _ scopeMember_spec). intros [a b] [c d] _ _ H. now inversion H.
+Qed.
+Lemma metafile_total l : TotalOn metafile_less l.
+Proof.
+  apply (via_key_total_on _ _ good_metafile _ metafile_spec). intros [a b] [c d] _ _ H. now inversion H.
+Qed.
+Lemma crossChunkImport_total l : TotalOn crossChunkImport_less l.
+Proof. apply (via_key_total_on _ _ good_Z _ crossChunkImport_spec). auto. Qed.
+(* export aliases of one chunk are pairwise distinct (they are the keys the
+   importing chunk uses), hence injective on the imported items *)
+Lemma ccItem_total_on_domain l :
+  (forall a b, In a l -> In b l -> cci_alias a = cci_alias b -> a = b) -> TotalOn ccItem_less l.
+Proof. apply (via_key_total_on _ _ good_str _ ccItem_spec). Qed.
+
+(* messages that carry a location and differ in (file, line, column, kind, text) are never tied *)
+Lemma msg_total_on_located l :
+  (forall a b, In a l -> In b l -> msg_key a = msg_key b -> a = b) -> TotalOn msg_less l.
+Proof. apply (via_key_total_on _ _ good_msg _ msg_spec). Qed.
+
+(* ... but ALL messages without a location are tied, whatever their kind and text *)
+Lemma msg_locationless_tied a b :
+  m_loc a = None -> m_loc b = None -> msg_less a b = false /\ msg_less b a = false.
+Proof. intros Ha Hb. unfold msg_less. rewrite Ha, Hb. auto. Qed.
+
+Lemma msg_total_refuted_witness :
+  exists a b, a <> b /\ msg_less a b = false /\ msg_less b a = false.
+Proof.
+  exists (mkMsg None 0 [97]), (mkMsg None 0 [98]). split; [discriminate | split; reflexivity].
+Qed.
+
+(* "./a*" style keys: same base length, same length => tied although distinct;
+   harmless because parseImportsExportsMap uses sort.Stable on the file order *)
+Lemma expansionKeys_total_refuted_witness :
+  exists a b, a <> b /\ expansionKeys_less a b = false /\ expansionKeys_less b a = false.
+Proof. exists [97; 42], [98; 42]. split; [discriminate | split; reflexivity]. Qed.
